@@ -13,20 +13,28 @@ import (
 	"net/http"
 	"net/http/httptest"
 	"net/url"
+	"reflect"
 	"sort"
 	"strings"
 	"sync"
+	"time"
 
 	envoy_core "github.com/envoyproxy/go-control-plane/envoy/config/core/v3"
 	envoy_auth "github.com/envoyproxy/go-control-plane/envoy/service/auth/v3"
 	"github.com/google/cel-go/cel"
 	"google.golang.org/grpc"
 
+	"github.com/dadrus/heimdall/internal/handler/decision"
+	"github.com/dadrus/heimdall/internal/handler/envoyextauth/grpcv3"
 	grpceh "github.com/dadrus/heimdall/internal/handler/middleware/grpc/errorhandler"
 	httpeh "github.com/dadrus/heimdall/internal/handler/middleware/http/errorhandler"
+	"github.com/dadrus/heimdall/internal/handler/proxy"
+	"github.com/dadrus/heimdall/internal/handler/requestcontext"
+	"github.com/dadrus/heimdall/internal/handler/service"
 	"github.com/dadrus/heimdall/internal/heimdall"
 	"github.com/dadrus/heimdall/internal/rules/mechanisms/cellib"
 	"github.com/dadrus/heimdall/internal/rules/mechanisms/errorhandlers"
+	"github.com/dadrus/heimdall/internal/rules/rule"
 	"github.com/dadrus/heimdall/internal/x/errorchain"
 )
 
@@ -125,14 +133,25 @@ func c12BuildErr(t map[string]any) (error, error) {
 		default:
 			return context.DeadlineExceeded, nil
 		}
+	case "ctxdone":
+		// what an outbound call, a cache access ... returns when the context of the request is done
+		if getStr(t, "c") == "deadline" {
+			return context.DeadlineExceeded, nil
+		}
+
+		return context.Canceled, nil
 	case "wrap":
 		inner, err := c12BuildErr(obj(t["e"]))
 		if err != nil {
 			return nil, err
 		}
 
-		if getInt(t, "v")%2 == 1 {
+		switch getInt(t, "v") % 3 {
+		case 1:
 			return &c12ForeignWrapper{msg: "wrapped", err: inner}, nil
+		case 2:
+			// the error of an aborted / failed call of net/http's client
+			return &url.Error{Op: "Get", URL: "http://remote.local/resource", Err: inner}, nil
 		}
 
 		return fmt.Errorf("while doing something: %w", inner), nil
@@ -194,6 +213,14 @@ func c12TermOf(err error, depth int) map[string]any {
 
 	if depth > 12 {
 		return map[string]any{"t": "foreign", "v": 0}
+	}
+
+	if err == context.Canceled { //nolint:errorlint
+		return map[string]any{"t": "ctxdone", "c": "canceled"}
+	}
+
+	if err == context.DeadlineExceeded { //nolint:errorlint
+		return map[string]any{"t": "ctxdone", "c": "deadline"}
 	}
 
 	for k, s := range errmapKinds {
@@ -391,7 +418,34 @@ func c12CheckRequest(method, path string, hdrs map[string]string) *envoy_auth.Ch
 	}
 }
 
-func c12RunHTTP(cfg c12Cfg, accept any, err error) (res c12Resp) {
+// c12RequestContext: the context of a request in the given state ("live", "cancelled": the client went away or
+// half-closed its connection, "deadline": its deadline has passed)
+func c12RequestContext(state string) (context.Context, context.CancelFunc) {
+	switch state {
+	case "cancelled":
+		ctx, cancel := context.WithCancel(context.Background())
+		cancel()
+
+		return ctx, cancel
+	case "deadline":
+		return context.WithDeadline(context.Background(), time.Now().Add(-time.Minute))
+	}
+
+	return context.WithCancel(context.Background())
+}
+
+func c12HTTPRequest(accept any, rctx string) (*http.Request, context.CancelFunc) {
+	ctx, cancel := c12RequestContext(rctx)
+	req := httptest.NewRequest(http.MethodGet, "/some/path", nil).WithContext(ctx)
+
+	if a, ok := accept.(string); ok {
+		req.Header.Set("Accept", a)
+	}
+
+	return req, cancel
+}
+
+func c12RunHTTP(cfg c12Cfg, accept any, err error, rctx string) (res c12Resp) {
 	defer func() {
 		if r := recover(); r != nil {
 			res = c12Resp{Out: "panic", GRPC: -1, Hdrs: [][]string{}}
@@ -399,18 +453,85 @@ func c12RunHTTP(cfg c12Cfg, accept any, err error) (res c12Resp) {
 	}()
 
 	rec := httptest.NewRecorder()
-	req := httptest.NewRequest(http.MethodGet, "/some/path", nil)
+	req, cancel := c12HTTPRequest(accept, rctx)
 
-	if a, ok := accept.(string); ok {
-		req.Header.Set("Accept", a)
-	}
+	defer cancel()
 
 	c12HTTPHandler(cfg).HandleError(rec, req, err)
 
 	return c12FromRecorder(rec)
 }
 
-func c12RunGRPC(cfg c12Cfg, accept any, err error) (res c12Resp) {
+// c12FailingExecutor is the rule executor of the in-process service handlers: the pipeline fails with `err`, which
+// is either returned, or kept as pipeline error by the request context (so that `Finalize` returns it).
+type c12FailingExecutor struct {
+	err         error
+	viaFinalize bool
+}
+
+func (e c12FailingExecutor) Execute(ctx heimdall.Context) (rule.Backend, error) {
+	if e.viaFinalize {
+		ctx.SetPipelineError(e.err)
+
+		return nil, nil //nolint:nilnil
+	}
+
+	return nil, e.err
+}
+
+// c12TrackingWriter tells a response which was written from the implicit `200 OK` net/http sends when a handler
+// returns without having written anything.
+type c12TrackingWriter struct {
+	*httptest.ResponseRecorder
+	wrote bool
+}
+
+func (w *c12TrackingWriter) WriteHeader(code int) {
+	w.wrote = true
+	w.ResponseRecorder.WriteHeader(code)
+}
+
+func (w *c12TrackingWriter) Write(b []byte) (int, error) {
+	w.wrote = true
+
+	return w.ResponseRecorder.Write(b)
+}
+
+// c12RunServiceHandler: the real `(*handler).ServeHTTP` of internal/handler/service with the request context
+// factory of the decision / proxy service and the real error handler, for a request whose context is in state rctx.
+func c12RunServiceHandler(svc string, cfg c12Cfg, accept any, err error, rctx string, viaFinalize bool) (res c12Resp) {
+	defer func() {
+		if r := recover(); r != nil {
+			res = c12Resp{Out: "panic", GRPC: -1, Hdrs: [][]string{}}
+		}
+	}()
+
+	var factory requestcontext.ContextFactory
+	if svc == "proxy" {
+		factory = proxy.VerifC12ContextFactory()
+	} else {
+		factory = decision.VerifC12ContextFactory()
+	}
+
+	rw := &c12TrackingWriter{ResponseRecorder: httptest.NewRecorder()}
+	req, cancel := c12HTTPRequest(accept, rctx)
+
+	defer cancel()
+
+	service.NewHandler(factory, c12FailingExecutor{err: err, viaFinalize: viaFinalize}, c12HTTPHandler(cfg)).
+		ServeHTTP(rw, req)
+
+	if !rw.wrote {
+		// nothing was written: net/http answers `200 OK` with an empty body, the positive answer
+		return c12Resp{Out: "ok", Status: http.StatusOK, GRPC: -1, Hdrs: [][]string{}}
+	}
+
+	return c12FromRecorder(rw.ResponseRecorder)
+}
+
+// c12RunEnvoyHandler: the real `Handler.Check` of the Envoy gRPC service behind the real error interceptor, for an
+// RPC whose context is in state rctx.
+func c12RunEnvoyHandler(cfg c12Cfg, accept any, err error, rctx string, viaFinalize bool) (res c12Resp) {
 	defer func() {
 		if r := recover(); r != nil {
 			res = c12Resp{Out: "panic", GRPC: -1, Hdrs: [][]string{}}
@@ -422,7 +543,36 @@ func c12RunGRPC(cfg c12Cfg, accept any, err error) (res c12Resp) {
 		hdrs["accept"] = a
 	}
 
-	out, rerr := c12GRPCInterceptor(cfg)(context.Background(), c12CheckRequest("GET", "/some/path", hdrs),
+	ctx, cancel := c12RequestContext(rctx)
+	defer cancel()
+
+	handler := grpcv3.VerifC12NewHandler(c12FailingExecutor{err: err, viaFinalize: viaFinalize})
+
+	out, rerr := c12GRPCInterceptor(cfg)(ctx, c12CheckRequest("GET", "/some/path", hdrs),
+		&grpc.UnaryServerInfo{FullMethod: "/envoy.service.auth.v3.Authorization/Check"},
+		func(ctx context.Context, req any) (any, error) {
+			return handler.Check(ctx, req.(*envoy_auth.CheckRequest)) //nolint:forcetypeassert
+		})
+
+	return c12FromCheckResponse(out, rerr)
+}
+
+func c12RunGRPC(cfg c12Cfg, accept any, err error, rctx string) (res c12Resp) {
+	defer func() {
+		if r := recover(); r != nil {
+			res = c12Resp{Out: "panic", GRPC: -1, Hdrs: [][]string{}}
+		}
+	}()
+
+	hdrs := map[string]string{}
+	if a, ok := accept.(string); ok {
+		hdrs["accept"] = a
+	}
+
+	ctx, cancel := c12RequestContext(rctx)
+	defer cancel()
+
+	out, rerr := c12GRPCInterceptor(cfg)(ctx, c12CheckRequest("GET", "/some/path", hdrs),
 		&grpc.UnaryServerInfo{FullMethod: "/envoy.service.auth.v3.Authorization/Check"},
 		func(context.Context, any) (any, error) { return nil, err })
 
@@ -439,7 +589,40 @@ func runErrMap(c map[string]any) (any, error) {
 
 		cfg := c12ReadCfg(obj(c["cfg"]))
 
-		return map[string]any{"http": c12RunHTTP(cfg, c["accept"], err), "grpc": c12RunGRPC(cfg, c["accept"], err)}, nil
+		// state of the context of the request / RPC when the failure is translated (absent: live)
+		rctx := getStr(c, "rctx")
+		if rctx == "" {
+			rctx = "live"
+		}
+
+		// the two translators
+		viaHTTP := c12RunHTTP(cfg, c["accept"], err, rctx)
+		viaGRPC := c12RunGRPC(cfg, c["accept"], err, rctx)
+		out := map[string]any{"http": viaHTTP, "grpc": viaGRPC}
+
+		if getBool(c, "translators_only") {
+			// the thorough tier sends part of its random cases through the translators only
+			return out, nil
+		}
+
+		// the handlers of the services around them: the failure returned by the rule executor, or kept as pipeline
+		// error and returned by Finalize. An answer equal to the translator's own is written as "=http" / "=grpc"
+		// (the lines get long otherwise; the Python side expands it again).
+		side := func(name string, resp c12Resp, base c12Resp, ref string) {
+			if reflect.DeepEqual(resp, base) {
+				out[name] = ref
+			} else {
+				out[name] = resp
+			}
+		}
+		side("dec", c12RunServiceHandler("decision", cfg, c["accept"], err, rctx, false), viaHTTP, "=http")
+		side("prx", c12RunServiceHandler("proxy", cfg, c["accept"], err, rctx, false), viaHTTP, "=http")
+		side("env", c12RunEnvoyHandler(cfg, c["accept"], err, rctx, false), viaGRPC, "=grpc")
+		side("decfin", c12RunServiceHandler("decision", cfg, c["accept"], err, rctx, true), viaHTTP, "=http")
+		side("prxfin", c12RunServiceHandler("proxy", cfg, c["accept"], err, rctx, true), viaHTTP, "=http")
+		side("envfin", c12RunEnvoyHandler(cfg, c["accept"], err, rctx, true), viaGRPC, "=grpc")
+
+		return out, nil
 	case "mech":
 		return c12RunMech(c)
 	case "ctxprobe":
@@ -496,7 +679,9 @@ func c12RunMech(c map[string]any) (any, error) {
 
 	cfg := c12ReadCfg(obj(c["cfg"]))
 
-	return map[string]any{"http": c12RunHTTP(cfg, c["accept"], mctx.err), "grpc": c12RunGRPC(cfg, c["accept"], mctx.err)}, nil
+	return map[string]any{
+		"http": c12RunHTTP(cfg, c["accept"], mctx.err, "live"), "grpc": c12RunGRPC(cfg, c["accept"], mctx.err, "live"),
+	}, nil
 }
 
 var _ = envoy_core.HeaderValue{}
